@@ -226,3 +226,45 @@ Proof.
       + apply ps_nil. }
   split; vm_compute; reflexivity.
 Qed.
+
+(* ------------------------------------------------------------------ an execution of the wake LTS (Sched/Wake.v) *)
+From SF Require Import Sched.Wake.
+Definition wk_w0 : waiter := mkwaiter "/s/0" [[ex_level]] plain_reqs 1 [].
+Definition wk_w9 : waiter := mkwaiter "/s/9" [[ex_level]] big_reqs 1 [].
+Definition wk_prog (t : nat) : kind :=
+  match t with 0%nat => KReq wk_w0 | 1%nat => KReq wk_w9 | 2%nat => KNot "/s/0" Completed (plain_free 3) | _ => KNot "" Waiting [] end.
+(* /s/0 is granted; /s/9 (9 cores) is evaluated and parks; /s/0 COMPLETED: notify_all wakes /s/9, which re-evaluates and parks again *)
+Definition wk_run : list act := [AArrive 0; AStep 0; AArrive 1; AStep 1; AArrive 2; AStep 2; AStep 1].
+Definition wk_hist : list event :=
+  [ev_of wk_w0; ev_of wk_w9; ENotify "/s/0" Completed (plain_free 3); ev_of wk_w9].
+
+Lemma wk_conformant : conformant hw_locs init wk_hist.
+Proof.
+  unfold wk_hist, ev_of, wk_w0, wk_w9. cbn [w_job w_cands w_reqs w_n w_chosen conformant].
+  split; [split; [reflexivity|split; [simpl; lia|split]]|].
+  { intros c [Hc|[]]. subst. exists ex_level. split; [reflexivity|left; reflexivity]. }
+  { intros k h [Hi|[]]. inversion Hi. subst. split; [split; [discriminate|intros d [Hd|[]]; subst; simpl; lia]|simpl; lia]. }
+  split; [reflexivity|]. vm_compute step. cbv iota beta.
+  split; [split; [reflexivity|split; [simpl; lia|split]]|].
+  { intros c [Hc|[]]. subst. exists ex_level. split; [reflexivity|left; reflexivity]. }
+  { intros k h [Hi|[]]. inversion Hi. subst. apply wfr_small; lia. }
+  split; [reflexivity|]. vm_compute step. cbv iota beta.
+  split; [intros fl rest Hf; inversion Hf; reflexivity|].
+  split.
+  { simpl. split; [discriminate|split; [discriminate|]]. intros fl rest nm jh1 u Hf Hloc Hn Hu m.
+    inversion Hf. subst fl rest. vm_compute in Hloc. inversion Hloc. subst nm.
+    vm_compute in Hn. inversion Hn. subst jh1. vm_compute in Hu. inversion Hu. subst u.
+    unfold size_at. cbn [total values stor map snd mount size]. destruct (String.eqb "/" m); lia. }
+  vm_compute step. cbv iota beta.
+  split; [split; [reflexivity|split; [simpl; lia|split]]|].
+  { intros c [Hc|[]]. subst. exists ex_level. split; [reflexivity|left; reflexivity]. }
+  { intros k h [Hi|[]]. inversion Hi. subst. apply wfr_small; lia. }
+  split; [reflexivity|]. vm_compute step. cbv iota beta. exact I.
+Qed.
+
+Lemma wk_execution : exists c, execs wk_prog c0 wk_run = Some c /\ quiescent c /\ pcs c 1%nat = PWaiting /\
+  waitq c = [1%nat] /\ gpre c ++ ground c = wk_hist.
+Proof.
+  eexists. split; [vm_compute; reflexivity|]. split; [|vm_compute; auto].
+  intros t. destruct t as [|[|[|t]]]; vm_compute; auto.
+Qed.
